@@ -113,6 +113,11 @@ func IsRetryableError(err error) bool {
 
 	errStr := strings.ToLower(err.Error())
 
+	// An HTTP answer was received: classify it by its status, whatever its body says.
+	if _, ok := explicitHTTPStatus(errStr); ok {
+		return isHTTPStatusRetryable(errStr)
+	}
+
 	// Network connection errors - use precise matching to avoid false positives
 	if strings.Contains(errStr, "connection refused") ||
 		strings.Contains(errStr, "connection reset") ||
